@@ -104,6 +104,9 @@ def end_harness(w, blocks, strategy, mode, bsize, iters, max_len, order='rev', f
             end.set('feedback_id', some(Int('u64', 10 + feedback)))
         holder = [end]
         ex.call_function(setup_senders, [Ref(holder, 0)])
+        native = ex.env.get('native')
+        if native:
+            _native_end(ex, blocks, strategy, mode, bsize, feedback, script, stubs, keyed)
         # drive
         routed = {k: [] for k in stubs}       # oracle: what each replica must receive, in order
         pos = 0
@@ -111,10 +114,10 @@ def end_harness(w, blocks, strategy, mode, bsize, iters, max_len, order='rev', f
                       'script': [repr(e) for e in script],
                       'sent': {str(k): [[repr(e) for e in b] for _, b in s.sent] for k, s in stubs.items()}}
         for step, el in enumerate(script):
-            before = {k: len(s.flat()) for k, s in stubs.items()}
-            ret = ex.call_function(nxt, [Ref(holder, 0)])
-            if ret.variant != ('Item' if el.variant == 'Timestamped' else el.variant):
-                raise Violation('End::next returned %s for %s' % (ret.variant, el.variant), hlib._wit(ex), sx())
+            if not native:
+                ret = ex.call_function(nxt, [Ref(holder, 0)])
+                if ret.variant != ('Item' if el.variant == 'Timestamped' else el.variant):
+                    raise Violation('End::next returned %s for %s' % (ret.variant, el.variant), hlib._wit(ex), sx())
             if el.variant in ('Item', 'Timestamped'):
                 # C03: per downstream block exactly one replica (all of them for broadcast)
                 for b, nrep in enumerate(blocks):
@@ -124,7 +127,7 @@ def end_harness(w, blocks, strategy, mode, bsize, iters, max_len, order='rev', f
                         targets = [0]
                     else:
                         targets = None
-                    got = [r for r in range(nrep) if _buffered_or_sent(ex, holder[0], stubs, (b, r), el)]
+                    got = [r for r in range(nrep) if _buffered_or_sent(ex, holder[0], stubs, (b, r), el, native)]
                     if targets is not None and got != targets:
                         raise Violation('element routed to replicas %s of a downstream block, expected %s' %
                                         (got, targets), hlib._wit(ex), sx())
@@ -134,8 +137,12 @@ def end_harness(w, blocks, strategy, mode, bsize, iters, max_len, order='rev', f
                                             hlib._wit(ex), sx())
                         if strategy == 'GroupBy':
                             key = el.fields[0].fields[0]
-                            hv = hash_fn('wyhash', 1)(z3.BitVecVal(0x0123456789abcdef, 64), z3.BitVecVal(1, 64),
-                                                       key.z())
+                            if native:
+                                kv = hlib.concrete_int(ex, key)
+                                hv = z3.BitVecVal(int(native[0]('hash', [kv])[native[1]].split()[0]), 64)
+                            else:
+                                hv = hash_fn('wyhash', 1)(z3.BitVecVal(0x0123456789abcdef, 64),
+                                                           z3.BitVecVal(1, 64), key.z())
                             check(ex, z3.URem(hv, z3.BitVecVal(nrep, 64)) == got[0],
                                   'group-by routing does not depend only on the hash of the key '
                                   '(replica index != hash(key) mod #replicas on the sorted endpoints)', sx)
@@ -148,7 +155,7 @@ def end_harness(w, blocks, strategy, mode, bsize, iters, max_len, order='rev', f
                         continue
                     routed[(b, r)].append(el)
             # C18: nothing withheld at the end of an iteration / on a flush request / at the end
-            if el.variant in ('FlushAndRestart', 'FlushBatch', 'Terminate'):
+            if el.variant in ('FlushAndRestart', 'FlushBatch', 'Terminate') and not native:
                 for k, s in stubs.items():
                     if len(s.flat()) != len(routed[k]):
                         raise Violation('batcher withholds %d element(s) after %s' %
@@ -174,7 +181,12 @@ def end_harness(w, blocks, strategy, mode, bsize, iters, max_len, order='rev', f
             for sender, batch in s.sent:
                 if not batch:
                     raise Violation('empty batch sent', hlib._wit(ex), sx())
-                if [f.v for f in sender.fields] != [1, 0, 0]:
+                # End flushes at every FlushAndRestart: the marker is always the last element of its batch
+                # (Start relies on it) -- visible in the delivered batches, so also checkable on the real build
+                if any(e.variant == 'FlushAndRestart' for e in batch[:-1]):
+                    raise Violation('FlushAndRestart is not the last element of its batch: the iteration end '
+                                    'was not flushed', hlib._wit(ex), sx())
+                if sender is not None and [f.v for f in sender.fields] != [1, 0, 0]:
                     raise Violation('batch not stamped with the sending replica coordinate', hlib._wit(ex), sx())
                 if mode in ('fixed', 'adaptive') and len(batch) > bsize:
                     raise Violation('batch larger than the configured size', hlib._wit(ex), sx())
@@ -182,13 +194,51 @@ def end_harness(w, blocks, strategy, mode, bsize, iters, max_len, order='rev', f
     return h
 
 
-def _buffered_or_sent(ex, end, stubs, key, el):
+def _native_end(ex, blocks, strategy, mode, bsize, feedback, script, stubs, keyed):
+    """fill the stubs' logs from a run of the real End (replay/net_end.rs)"""
+    sid = {'OnlyOne': 0, 'Random': 1, 'GroupBy': 2, 'All': 3}[strategy]
+    mid = {'single': 0, 'fixed': 1, 'adaptive': 2}[mode]
+    params = [sid, mid, bsize, len(blocks)] + list(blocks) + [-1 if feedback is None else feedback]
+    if not keyed:
+        # the driver always uses (u64,u64) payloads: key 0
+        script = [hlib.se(e.variant, Agg('tuple', None, [Int('u64', 0), e.fields[0]]), *e.fields[1:])
+                  if e.variant in ('Item', 'Timestamped') else e for e in script]
+    txt = hlib.native_run(ex, 'end', params, script, keyed=True)
+    for sec in txt.split(';'):
+        sec = sec.strip()
+        if not sec:
+            continue
+        label, rest = sec.split(':', 1)
+        b, r = label.strip().split('.')
+        st = stubs[(int(b) - 10, int(r))]
+        for bt in rest.split(']'):
+            bt = bt.strip().lstrip('[').strip()
+            if not bt:
+                continue
+            bad = None
+            toks = []
+            for t in bt.split():
+                if t.startswith('!sender='):
+                    bad = t
+                else:
+                    toks.append(t)
+            els = [hlib.parse_token(t) for t in toks]
+            if not keyed:
+                els = [hlib.se(e.variant, e.fields[0].fields[1], *e.fields[1:])
+                       if e.variant in ('Item', 'Timestamped') else e for e in els]
+            st.sent.append((None if bad is None else Agg('tuple', None, [Int('u64', 9), Int('u64', 9), Int('u64', 9)]),
+                            els))
+
+
+def _buffered_or_sent(ex, end, stubs, key, el, native=None):
     """does replica `key` hold element `el` (in its batcher buffer or already sent)?"""
     ident = _ident(el)
     st = stubs[key]
     for e in st.flat():
         if _ident(e) == ident:
             return True
+    if native:
+        return False
     for pair in end.get('senders').items:
         batcher = pair.fields[1]
         if batcher.get('remote_sender') is st:
